@@ -115,7 +115,14 @@ def mutate(text, rng):
     if k == 18:
         # self import / import cycle with the files of the base directory
         imp = '<import xmlns:xlink="http://www.w3.org/1999/xlink" xlink:href="%s"><units units_ref="u" name="iu"/><component component_ref="c" name="ic"/></import>' % rng.choice(['self.cellml', 'a.cellml', 'missing.cellml', 'notxml.cellml', '', '.', '/', 'a.cellml#x'])
-        return re.sub(r'(<model [^>]*>)', lambda m: m.group(1) + imp, text, count=1), 'import added'
+        t = re.sub(r'(<model [^>]*>)', lambda m: m.group(1) + imp, text, count=1)
+        if rng.random() < 0.5:
+            # the imported component encapsulates components of this model
+            names = re.findall(r'<component name="(\w+)"', t)
+            if names:
+                enc = '<encapsulation><component_ref component="ic">%s</component_ref></encapsulation>' % ''.join('<component_ref component="%s"/>' % n for n in rng.sample(names, min(len(names), rng.randint(1, 3))))
+                t = t.replace('</model>', enc + '</model>')
+        return t, 'import added'
     if k == 19:
         return re.sub(r'<connection ', '<connection component_1="c0" component_2="c0" ', text, count=1), 'connection attributes doubled'
     if k == 20:
